@@ -1348,9 +1348,33 @@ class Symex:
         targets = {x.id for g in n.generators for x in ast.walk(g.target) if isinstance(x, ast.Name)}
         body = [n.elt] + [c for g in n.generators for c in g.ifs] + [g.iter for g in n.generators[1:]]
         free = sorted({x.id for b in body for x in ast.walk(b) if isinstance(x, ast.Name)} - targets)
-        frames = list(self.frames)
-        out._lazy = (self, n, frames, self.module, first, free, self._gen_state(frames, free))
+        frames, module = list(self.frames), self.module
+
+        def recompute():
+            saved = (self.frames, self.module)
+            self.frames, self.module = list(frames), module
+            try:
+                fresh = []
+                self.comp(n.generators, 0, lambda: fresh.append(self.ev(n.elt)), first=(first,))
+                return fresh
+            finally:
+                self.frames, self.module = saved
+        return self._lazy_list(out, recompute, lambda: self._gen_state(frames, free))
+
+    def _lazy_list(self, out, recompute, state):
+        """``out`` (a _GenList holding the eagerly computed elements) is recomputed at its first consumption if
+        ``state()`` differs from what it is now."""
+        out._lazy = (self, recompute, state, state())
         return out
+
+    def _callee_state(self, f):
+        """State a lazily applied function reads: the bindings of its free names in its closure."""
+        if not isinstance(f, Func) or not f.frames:
+            return ("id", id(f))
+        body = f.node.body if isinstance(f.node.body, list) else [f.node.body]
+        bound = {a.arg for a in f.node.args.args + f.node.args.kwonlyargs + f.node.args.posonlyargs}
+        free = sorted({x.id for b in body for x in ast.walk(b) if isinstance(x, ast.Name)} - bound)
+        return self._gen_state(f.frames, free)
 
     def _gen_state(self, frames, names):
         st = []
@@ -1362,17 +1386,11 @@ class Symex:
         return tuple(st)
 
     def _gen_force(self, out):
-        _, n, frames, module, first, free, state = out._lazy
+        _, recompute, state, then = out._lazy
         out._lazy = None
-        if self._gen_state(frames, free) == state:
+        if state() == then:
             return
-        saved = (self.frames, self.module)
-        self.frames, self.module = list(frames), module
-        try:
-            fresh = []
-            self.comp(n.generators, 0, lambda: fresh.append(self.ev(n.elt)), first=(first,))
-        finally:
-            self.frames, self.module = saved
+        fresh = recompute()
         list.clear(out)
         list.extend(out, fresh)
 
@@ -1886,13 +1904,20 @@ class Symex:
         if name == "type" and len(args) == 1 and (_plain(args[0]) or isinstance(args[0], (list, tuple, dict, set))):
             return Ext(type(args[0]).__name__)
         if name == "map":
-            return [self.call_value(args[0], list(xs) if len(args) > 2 else [xs], {}, node)
-                    for xs in (zip(*[self.iterate(a, node) for a in args[1:]]) if len(args) > 2
-                               else self.iterate(args[1], node))]
+            def do_map():
+                return [self.call_value(args[0], list(xs) if len(args) > 2 else [xs], {}, node)
+                        for xs in (zip(*[self.iterate(a, node) for a in args[1:]]) if len(args) > 2
+                                   else self.iterate(args[1], node))]
+            # map and filter are lazy: the function is applied when the result is consumed
+            return self._lazy_list(_GenList(do_map()), do_map,
+                                   lambda: (self._callee_state(args[0]), tuple(_fingerprint(a) for a in args[1:])))
         if name == "filter":
-            if args[0] is None:
-                return [x for x in self.iterate(args[1], node) if self.truth(x, node)]
-            return [x for x in self.iterate(args[1], node) if self.truth(self.call_value(args[0], [x], {}, node))]
+            def do_filter():
+                if args[0] is None:
+                    return [x for x in self.iterate(args[1], node) if self.truth(x, node)]
+                return [x for x in self.iterate(args[1], node) if self.truth(self.call_value(args[0], [x], {}, node))]
+            return self._lazy_list(_GenList(do_filter()), do_filter,
+                                   lambda: (self._callee_state(args[0]), _fingerprint(args[1])))
         if short in ("takewhile", "dropwhile", "filterfalse") and name in (short, "itertools." + short) and len(args) == 2 \
                 and not isinstance(args[1], T):
             out, state = [], short == "dropwhile"
